@@ -947,6 +947,55 @@ class Stmts(Calls):
         """all(P for j in range(a, b)) / all(P for x in seq) in contract text -> forall / exists"""
         target, iter_e, ifs, elt = self.comp_parts(comp)
         (s, it), = list(self.ev(iter_e, st))
+        if isinstance(it, Ref):
+            it = self.lift(it, s)
+        if it == 'ALL-INTS':
+            m = self.fresh('m', INT)
+            sub = st.fork()
+            sub.stack.append(Frame({}, len(sub.stack) - 1, sub.frame.globs, sub.frame.qualname))
+            sub.bound = st.bound + [m.t]
+            outs = []
+            for s1, c in self.assign(target, m, sub):
+                for s2, vs in self.ev_list(list(ifs) + [elt], s1):
+                    outs.append((s2, vs))
+            if len(outs) != 1 or isinstance(outs[0][1], Raised):
+                raise Outside("quantifier body must be a pure expression")
+            s2, vs = outs[0]
+            t = self.b(self.truth(vs[-1], s2))
+            yield st, V(z3.ForAll([m.t], t) if fname == 'all' else z3.Exists([m.t], t), BOOL)
+            return
+        mapv = it.base if isinstance(it, IterV) and it.kind in ('keys', 'values', 'items') else it
+        if isinstance(mapv, Ref):
+            mapv = self.lift(mapv, s)
+        if isinstance(mapv, V) and mapv.ty.kind in ('map', 'set'):
+            # quantification over the keys (values / items) of a finite map: forall k: K. k in m ==> body
+            kty = mapv.ty.args[0]
+            kc = self.fresh('key', kty)
+            present = self.b(self.contains(mapv, kc, s))
+            kind = it.kind if isinstance(it, IterV) else 'keys'
+            if kind == 'keys':
+                elem = kc
+            else:
+                o = opt_sort(to_sort(mapv.ty.args[1], self.reg))
+                val = V(o.val(z3.Select(mapv.t, kc.t)), mapv.ty.args[1])
+                elem = val if kind == 'values' else (kc, val)
+            sub = st.fork()
+            sub.stack.append(Frame({}, len(sub.stack) - 1, sub.frame.globs, sub.frame.qualname))
+            sub.bound = st.bound + [kc.t]
+            outs = []
+            for s1, c in self.assign(target, elem, sub):
+                for s2, vs in self.ev_list(list(ifs) + [elt], s1):
+                    outs.append((s2, vs))
+            if len(outs) != 1 or isinstance(outs[0][1], Raised):
+                raise Outside("quantifier body must be a pure expression")
+            s2, vs = outs[0]
+            t = self.b(self.truth(vs[-1], s2))
+            rng = present
+            if ifs:
+                rng = z3.And(rng, self.b(self._and([self.b(self.truth(x, s2)) for x in vs[:-1]])))
+            q = z3.ForAll([kc.t], z3.Implies(rng, t)) if fname == 'all' else z3.Exists([kc.t], z3.And(rng, t))
+            yield st, V(q, BOOL)
+            return
         n, f = self.iter_view(it, s)
         if is_concrete(n) and n <= 16:
             (s2, acc), = list(self._comp_unrolled(comp, s, n, f, 'raw'))
